@@ -13,6 +13,11 @@ oracle     : dense state vector (`to_vec`, site k = bit k): every one-site / adj
              entropy, Schmidt spectrum, and the diagnostics — each observable *object* must hold its own value under
              every permutation of the list, through `evaluate_observables` and through real `simulator.run`s
              (strong: vs qiskit `Statevector`; analog: column 0 vs the initial state).
+extension  : kinds `schmidt-cut` / `run-entropy` (section "extension: Schmidt data of a cut" below): the matrix the real
+             `get_entropy` / `get_schmidt_spectrum` hand to `np.linalg.svd`, the number / array they return and the canonical
+             form they are called in, vs `Model/Schmidt.lean` (requests `theta`, `entropy`, `schpad` of driver Attribution) and
+             the hypotheses of `cut_factorisation` / `schmidt_from_centre` / `schmidt_values` (spec ties); dense-SVD oracle on
+             every cut of random / tiny-Schmidt-value / GHZ-like / zero-padded / unnormalised states, qubits and qutrits.
 """
 from __future__ import annotations
 
@@ -594,6 +599,406 @@ def run_d29(inp):
     return out
 
 
+# ------------------------------------------------------------------------------------------------ extension: Schmidt data of a cut
+# (Model/Schmidt.lean, Lemmas/Schmidt*.lean, Props/C11.lean `cut_factorisation` … `schmidt_padding`)
+#
+# kinds
+#   schmidt-cut   one state, every cut (i, i+1): the real `evaluate_observables` on entropy + schmidt_spectrum observables of all
+#                 cuts (listing order shuffled) with `np.linalg.svd`, `MPS.get_entropy`, `MPS.get_schmidt_spectrum` observed:
+#                   value tie  `theta`    the matrix handed to the SVD  vs  `thetaMat` on the tensors the method saw
+#                   value tie  `entropy`  the returned number           vs  `entropyCode` (binary64) on the singular values LAPACK returned
+#                   value tie  `schpad`   the returned 500-array        vs  `schmidtPad`
+#                   spec ties  the hypotheses / conclusions of `cut_factorisation`, `schmidt_from_centre`, `schmidt_values` on the real
+#                              blocks: prefix left-isometric, suffix right-isometric, Psi = P M Q, P^H P = 1, Q Q^H = 1,
+#                              Psi Psi^H = P M M^H P^H, Psi^H Psi = Q^H M^H M Q, SVD spec (U diag(s) V = M, isometries, s sorted >= 0,
+#                              power traces)
+#                   oracle     entropy and spectrum of every cut vs the SVD of the dense vector reshaped at that cut
+#   run-entropy   real `simulator.run` (strong circuit vs qiskit Statevector; analog column 0 vs the initial state) with entropy
+#                 observables on every cut, listed in shuffled order between local observables
+import os
+import struct
+
+SCH_TOP = 500
+SCH_TOL = 1e-10        # dense oracle of the schmidt-cut kind (largest clean-tree deviation over 6 seeds: 9e-16)
+RUN_TOL = 1e-9         # entropy through simulator.run (largest clean-tree deviation over 6 seeds: 2e-15)
+SPEC = {}
+
+
+def spec_note(name, dev, tol, detail=""):
+    e = SPEC.setdefault(name, {"name": name, "ok": True, "n": 0, "worst": 0.0, "tol": tol, "detail": ""})
+    e["n"] += 1
+    dev = float(dev)
+    if not np.isfinite(dev):
+        dev = float("inf")
+    e["worst"] = max(e["worst"], dev)
+    if not dev <= tol and e["ok"]:
+        e["ok"] = False
+        e["detail"] = f"deviation {dev:.3e} > {tol:.1e}: {detail}"[:400]
+    return dev <= tol
+
+
+def schmidt_spec():
+    return list(SPEC.values())
+
+
+def rand_state_d(nprng, L, d, cap):
+    dims = [1] + [min(cap, d ** min(k, L - k)) for k in range(1, L)] + [1]
+    ts = [nprng.normal(size=(d, dims[i], dims[i + 1])) + 1j * nprng.normal(size=(d, dims[i], dims[i + 1])) for i in range(L)]
+    m = MPS(L, tensors=ts, physical_dimensions=[d] * L)
+    m.normalize("B")
+    return m
+
+
+def dense_to_mps(psi, L, d):
+    """exact (untruncated) left-to-right SVD sweep of a dense tensor with axis k = site k; harness code, then normalised by the real code"""
+    ts, rest, chi = [], psi.reshape(1, -1), 1
+    for k in range(L - 1):
+        m = rest.reshape(chi * d, -1)
+        u, sv, vh = np.linalg.svd(m, full_matrices=False)
+        new = u.shape[1]
+        ts.append(u.reshape(chi, d, new).transpose(1, 0, 2))
+        rest, chi = (sv[:, None] * vh), new
+    ts.append(rest.reshape(chi, d, 1).transpose(1, 0, 2))
+    mps = MPS(L, tensors=[np.ascontiguousarray(t).astype(complex) for t in ts], physical_dimensions=[d] * L)
+    mps.normalize("B")
+    return mps
+
+
+def unitary_cols(nprng, n, k):
+    a = nprng.normal(size=(n, k)) + 1j * nprng.normal(size=(n, k))
+    q, _ = np.linalg.qr(a)
+    return q[:, :k]
+
+
+def schmidt_state(inp):
+    """the state of a schmidt-cut case (deterministic in the input)"""
+    L, d, fam = inp["L"], inp.get("d", 2), inp["family"]
+    nprng = np.random.default_rng(inp["sub"])
+    rng = random.Random(inp["sub"])
+    if fam == "random":
+        return rand_state_d(nprng, L, d, inp.get("cap", 4))
+    if fam == "tiny":
+        # prescribed Schmidt coefficients on one cut, some of them tiny / exactly zero
+        c = inp.get("cut", rng.randrange(L - 1))
+        nl, nr = d ** (c + 1), d ** (L - c - 1)
+        k = min(nl, nr)
+        pool = [1.0, 0.6, 0.3, 1e-3, 1e-5, 1e-7, 1e-9, 1e-11, 1e-13, 0.0, 0.0, 1e-150]
+        sv = np.array(([1.0] + [rng.choice(pool) * rng.uniform(0.5, 1.0) for _ in range(k - 1)])[:k])
+        sv = sv / np.linalg.norm(sv)
+        mat = (unitary_cols(nprng, nl, k) * sv) @ unitary_cols(nprng, nr, k).conj().T
+        return dense_to_mps(mat.reshape([d] * L), L, d)
+    if fam == "ghz":
+        a, b = rng.uniform(0.2, 1.0), rng.uniform(0.2, 1.0) * np.exp(1j * rng.uniform(0, 6.28))
+        psi = np.zeros([d] * L, dtype=complex)
+        psi[(0,) * L] = a
+        psi[(d - 1,) * L] = b
+        psi[tuple(rng.randrange(d) for _ in range(L))] += rng.uniform(0.0, 0.3)   # break the mirror symmetry
+        return dense_to_mps(psi / np.linalg.norm(psi), L, d)
+    if fam == "padded":
+        # a product state with zero-padded bonds (qubits only): exact zero singular values
+        return MPS(L, state=inp.get("pstate", "y+"), pad=inp.get("cap", 4))
+    raise ValueError(fam)
+
+
+def dense_cut(v, L, d, i):
+    psi = v.reshape([d] * L).transpose(list(range(L - 1, -1, -1)))          # axis k <-> site k
+    return psi.reshape(d ** (i + 1), -1)
+
+
+def dense_entropy(sv):
+    p = sv.astype(float) ** 2
+    p = p / np.sum(p)
+    p = p[p > 0]
+    return float(-np.sum(p * np.log(p)))
+
+
+def f64bits(x):
+    return struct.unpack("<Q", struct.pack("<d", float(x)))[0]
+
+
+def spy_cut_calls(mps, params):
+    """real evaluate_observables; every get_entropy / get_schmidt_spectrum call with the tensors it saw, the SVD input and output"""
+    calls, cur = [], []
+    orig_svd = np.linalg.svd
+    orig = {n: getattr(MPS, n) for n in ("get_entropy", "get_schmidt_spectrum")}
+
+    def svd_spy(a, *args, **kw):
+        out = orig_svd(a, *args, **kw)
+        if cur:
+            cur[-1]["svd"].append((np.array(a, copy=True), out, dict(kw)))
+        return out
+
+    def mk(name):
+        f = orig[name]
+
+        def w(self, sites):
+            rec = {"name": name, "sites": list(sites), "tensors": [np.array(t, copy=True) for t in self.tensors], "svd": [], "is_self": self is mps}
+            cur.append(rec)
+            try:
+                rec["ret"] = f(self, sites)
+            finally:
+                cur.pop()
+            calls.append(rec)
+            return rec["ret"]
+
+        return w
+
+    res = np.empty((len(params.sorted_observables), 1), dtype=object)
+    exc = None
+    np.linalg.svd = svd_spy
+    for n in orig:
+        setattr(MPS, n, mk(n))
+    try:
+        mps.evaluate_observables(params, res, 0)
+    except Exception as e:  # noqa: BLE001
+        exc = f"{type(e).__name__}: {e}"
+    finally:
+        np.linalg.svd = orig_svd
+        for n in orig:
+            setattr(MPS, n, orig[n])
+    return calls, res, exc
+
+
+def cflat(a):
+    return " ".join(ib.cfrac(z) for z in np.asarray(a, dtype=complex).ravel())
+
+
+def cut_spec_ties(rec, psi_cut, d, L, tag):
+    """hypotheses and conclusions of cut_factorisation / schmidt_from_centre / schmidt_values on what the real method saw"""
+    T, (i, j) = rec["tensors"], rec["sites"]
+    tol = 1e-9
+    where = f"{tag} cut ({i},{j})"
+    for k in range(i):
+        g = np.einsum("sla,slb->ab", T[k].conj(), T[k])
+        spec_note("hyp: prefix tensors left-isometric (sum_s A[s]^H A[s] = 1)", np.max(np.abs(g - np.eye(g.shape[0]))), tol, f"{where} site {k}")
+    for k in range(j + 1, L):
+        g = np.einsum("sar,sbr->ab", T[k], T[k].conj())
+        spec_note("hyp: suffix tensors right-isometric (sum_s B[s] B[s]^H = 1)", np.max(np.abs(g - np.eye(g.shape[0]))), tol, f"{where} site {k}")
+    if not rec["svd"]:
+        return
+    M = rec["svd"][0][0]
+    a, b = T[i], T[j]
+    chil, chir = a.shape[1], b.shape[2]
+    # the blocks of the real prefix / suffix
+    X = np.ones((1, 1), dtype=complex)
+    for k in range(i):
+        X = np.einsum("al,slr->asr", X, T[k]).reshape(-1, T[k].shape[2])
+    Y = np.ones((1, 1), dtype=complex)
+    for k in range(L - 1, j, -1):
+        Y = np.einsum("slr,rt->lst", T[k], Y).reshape(T[k].shape[1], -1)
+    if M.shape != (d * chil, d * chir) or X.shape[1] != chil or Y.shape[0] != chir:
+        spec_note("Psi = P M Q (dense vector vs real blocks and the matrix handed to the SVD)", float("inf"), tol, f"{where}: shapes {M.shape} {X.shape} {Y.shape}")
+        return
+    P = np.einsum("al,st->astl", X, np.eye(d)).reshape(X.shape[0] * d, d * chil)
+    Q = np.einsum("rb,ut->urtb", Y, np.eye(d)).reshape(d * chir, d * Y.shape[1])
+    spec_note("P^H P = 1", np.max(np.abs(P.conj().T @ P - np.eye(P.shape[1]))), tol, where)
+    spec_note("Q Q^H = 1", np.max(np.abs(Q @ Q.conj().T - np.eye(Q.shape[0]))), tol, where)
+    spec_note("Psi = P M Q (dense vector vs real blocks and the matrix handed to the SVD)", np.max(np.abs(psi_cut - P @ M @ Q)), tol, where)
+    spec_note("Psi Psi^H = P (M M^H) P^H", np.max(np.abs(psi_cut @ psi_cut.conj().T - P @ (M @ M.conj().T) @ P.conj().T)), tol, where)
+    spec_note("Psi^H Psi = Q^H (M^H M) Q", np.max(np.abs(psi_cut.conj().T @ psi_cut - Q.conj().T @ (M.conj().T @ M) @ Q)), tol, where)
+    out = rec["svd"][0][1]
+    sv = np.asarray(out if not isinstance(out, tuple) else out[1], dtype=float)
+    ok_sorted = bool(np.all(sv >= 0) and np.all(np.diff(sv) <= 1e-15) and len(sv) == min(M.shape))
+    spec_note("SVD spec: s >= 0, descending, min(rows, cols) values", 0.0 if ok_sorted else float("inf"), tol, where)
+    G = M @ M.conj().T
+    rho = psi_cut @ psi_cut.conj().T
+    Gn, rn = np.eye(G.shape[0]), np.eye(rho.shape[0])
+    for n in (1, 2, 3):
+        Gn, rn = Gn @ G, rn @ rho
+        scale_n = max(1.0, float(np.sum(sv ** (2 * n))))      # relative for unnormalised vectors
+        spec_note("SVD spec: tr (M M^H)^n = sum s^2n, n = 1..3", abs(np.trace(Gn).real - np.sum(sv ** (2 * n))) / scale_n, tol, f"{where} n={n}")
+        spec_note("schmidt_values: tr rho_left^n = sum s^2n, n = 1..3", abs(np.trace(rn).real - np.sum(sv ** (2 * n))) / scale_n, tol, f"{where} n={n}")
+    if isinstance(out, tuple):
+        u, s2, vh = out
+        spec_note("SVD spec: U diag(s) V = M, U^H U = 1, V V^H = 1",
+                  max(np.max(np.abs((u * s2) @ vh - M)), np.max(np.abs(u.conj().T @ u - np.eye(u.shape[1]))), np.max(np.abs(vh @ vh.conj().T - np.eye(vh.shape[0])))),
+                  tol, where)
+
+
+def run_schmidt_cut(inp):
+    L, d = inp["L"], inp.get("d", 2)
+    rng = random.Random(inp["sub"] ^ 0x5C11)
+    mps = schmidt_state(inp)
+    if inp.get("scale"):
+        # an unnormalised vector c·psi (centre tensor scaled): the spectrum is that of the vector as it is, the entropy that of psi
+        mps.tensors[0] = mps.tensors[0] * complex(*inp["scale"])
+    v = copy.deepcopy(mps).to_vec()
+    before = [t.copy() for t in mps.tensors]
+    cuts = inp.get("cuts") or list(range(L - 1))
+    specs = [{"k": "ent", "site": c} for c in cuts] + [{"k": "sch", "site": c} for c in cuts]
+    if inp.get("with_locals", True):
+        specs += [{"k": "l1", "gate": "z", "site": rng.randrange(L), "as_int": True} for _ in range(2)] if d == 2 else []
+    rng.shuffle(specs)
+    obs = [make_obs(s) for s in specs]
+    params = StrongSimParams(obs, show_progress=False)
+    calls, res, exc = spy_cut_calls(mps, params)
+    tag = f"{inp['family']} L={L} d={d} sub={inp['sub']}" + (" scaled" if inp.get("scale") else "")
+    out, probs, worst = [], [], 0.0
+    if exc:
+        probs.append(f"evaluate_observables raised {exc}")
+    if any(not np.array_equal(a, b) for a, b in zip(before, mps.tensors)):
+        probs.append("evaluate_observables modified the state")
+    ids = {id(o): j for j, o in enumerate(obs)}
+    if not exc:
+        # direct oracle: every object holds the Schmidt data of its own cut of the dense vector
+        for row, o in enumerate(params.sorted_observables):
+            sp = specs[ids[id(o)]]
+            if sp["k"] not in ("ent", "sch"):
+                continue
+            sv = np.linalg.svd(dense_cut(v, L, d, sp["site"]), compute_uv=False)
+            got = res[row, 0]
+            if sp["k"] == "ent":
+                want = dense_entropy(sv)
+                try:
+                    dev = abs(float(got) - want)
+                except (TypeError, ValueError):
+                    dev = float("inf")
+                if not dev <= SCH_TOL:
+                    probs.append(f"entropy of cut ({sp['site']},{sp['site'] + 1}): got {got}, dense vector {want:.12g}")
+            else:
+                ok, dev = value_matches(sp, got, sv)
+                if not (ok and dev <= SCH_TOL):
+                    probs.append(f"Schmidt spectrum of cut ({sp['site']},{sp['site'] + 1}): got {np.asarray(got).ravel()[:4]}, dense vector {sv[:4]} (deviation {dev:.2e})")
+            worst = max(worst, dev if np.isfinite(dev) else 0.0)
+    out.append({"req": None, "impl": None, "kind": "schmidt-cut",
+                "oracle": {"ok": not probs, "detail": "; ".join(probs)[:700] or f"worst deviation {worst:.2e} over {len(cuts)} cuts"},
+                "sig": f"schmidt-cut:{inp['family']}:{L}:{d}:{inp['sub'] % 99991}", "nontrivial": L > 2})
+    # ties per call
+    n_theta = 0
+    for rec in calls:
+        i, j = rec["sites"]
+        T = rec["tensors"]
+        a, b = T[i], T[j]
+        bond = a.shape[2]
+        short = "ent" if rec["name"] == "get_entropy" else "sch"
+        cut_spec_ties(rec, dense_cut(v, L, d, i), d, L, tag)
+        sig0 = f"{inp['family']}:{L}:{d}:{i}:{a.shape}:{b.shape}:{inp['sub'] % 99991}"
+        sv = None
+        if rec["svd"]:
+            M, o, _ = rec["svd"][0]
+            sv = np.asarray(o if not isinstance(o, tuple) else o[1], dtype=float)
+            if M.size <= 160 and n_theta < inp.get("max_theta", 4) and short == "ent":
+                n_theta += 1
+                req = f"theta {a.shape[0]} {a.shape[1]} {a.shape[2]} {b.shape[0]} {b.shape[2]} | {cflat(a)} | {cflat(b)}"
+                out.append({"req": req, "impl": f"theta {M.shape[0]} {M.shape[1]} " + cflat(M), "oracle": None, "kind": "schmidt-theta",
+                            "sig": "theta:" + sig0, "nontrivial": bond > 1})
+        if short == "ent":
+            svs = [] if sv is None else list(sv)
+            req = f"entropy {bond} | " + " ".join(str(f64bits(x)) for x in svs)
+            try:
+                impl = "ent " + ib.frac(float(rec["ret"]))
+            except ib.NonFinite:
+                impl = "ent nan"
+            out.append({"req": req, "impl": impl, "oracle": None, "kind": "schmidt-entropy", "sig": "entropy:" + sig0,
+                        "nontrivial": bond > 1})
+        else:
+            svs = [] if sv is None else list(sv)
+            arr = np.asarray(rec["ret"], dtype=float).ravel()
+            impl = "pad " + " ".join("nan" if x != x else ib.frac(x) for x in arr)
+            out.append({"req": f"schpad {SCH_TOP} {bond} | " + " ".join(ib.frac(x) for x in svs), "impl": impl, "oracle": None,
+                        "kind": "schmidt-pad", "sig": "schpad:" + sig0, "nontrivial": bond > 1})
+    return out
+
+
+def _entropy_strong_run(circ, L, specs):
+    from mqt.yaqs import simulator
+
+    os.environ["YAQS_MAX_WORKERS"] = "1"
+    obs = [make_obs(s) for s in specs]
+    sp = StrongSimParams(obs, num_traj=1, threshold=1e-16, show_progress=False)
+    simulator.run(MPS(L, state="zeros"), build_circuit(circ, L), sp, None, parallel=False)
+    return {"results": [results_of(o) for o in obs]}
+
+
+def _entropy_analog_run(inp, specs, order):
+    from mqt.yaqs import simulator
+    from mqt.yaqs.core.data_structures.networks import MPO
+
+    os.environ["YAQS_MAX_WORKERS"] = "1"
+    L = inp["L"]
+    state = schmidt_state(inp)
+    v0 = copy.deepcopy(state).to_vec()
+    obs = [make_obs(s) for s in specs]
+    sp = AnalogSimParams(obs, elapsed_time=0.2, dt=0.1, num_traj=1, order=order, sample_timesteps=True, threshold=1e-16, show_progress=False)
+    simulator.run(state, MPO.ising(L, 1.0, 0.5), sp, None, parallel=False)
+    return {"results": [results_of(o) for o in obs], "v0": v0}
+
+
+def run_entropy_run(inp):
+    """entropy observables on every cut through the real simulator.run"""
+    L, mode = inp["L"], inp["mode"]
+    rng = random.Random(inp["sub"])
+    specs = [{"k": "ent", "site": c} for c in range(L - 1)] + [{"k": "l1", "gate": rng.choice(["x", "z"]), "site": rng.randrange(L), "as_int": True}
+                                                                for _ in range(2)]
+    rng.shuffle(specs)
+    if mode == "strong":
+        from qiskit.quantum_info import Statevector
+
+        res = in_child(_entropy_strong_run, (inp["circuit"], L, specs))
+        ref = None if ("error" in res or "timeout" in res) else np.asarray(Statevector(build_circuit(inp["circuit"], L)).data)
+    else:
+        res = in_child(_entropy_analog_run, (inp, specs, inp["order"]))
+        ref = res.get("v0")
+    probs, worst = [], 0.0
+    if "timeout" in res:
+        probs.append(f"simulator.run ({mode}) did not finish")
+    elif "error" in res:
+        probs.append(f"simulator.run ({mode}) raised {res['error']}")
+    else:
+        for jx, sp in enumerate(specs):
+            got = np.asarray(res["results"][jx]).ravel()
+            got0 = got[-1] if mode == "strong" else got[0]
+            if sp["k"] == "ent":
+                want = dense_entropy(np.linalg.svd(dense_cut(ref, L, 2, sp["site"]), compute_uv=False))
+            else:
+                want = dense_value(sp, ref, L)
+            dev = abs(complex(got0) - want)
+            worst = max(worst, dev if np.isfinite(dev) else 0.0)
+            if not dev <= RUN_TOL:
+                probs.append(f"object #{jx} ({tok(sp)}).results = {got0}, dense value {want:.12g}")
+    return {"req": None, "impl": None, "kind": f"run-entropy-{mode}",
+            "oracle": {"ok": not probs, "detail": "; ".join(probs)[:700] or f"worst deviation {worst:.2e}"},
+            "sig": f"run-entropy:{mode}:{L}:{inp['sub'] % 99991}", "nontrivial": True}
+
+
+def entangling_circuit(rng, L):
+    spec = []
+    for _ in range(rng.randrange(2 * L, 4 * L)):
+        if rng.random() < 0.5:
+            q = rng.randrange(L - 1)
+            spec.append([rng.choice(["cx", "cz"]), [q, q + 1] if rng.random() < 0.7 else [q + 1, q]] if rng.random() < 0.7
+                        else [rng.choice(["rxx", "rzz"]), [q, q + 1], round(rng.uniform(0.2, 1.4), 3)])
+        else:
+            spec.append([rng.choice(["rx", "ry", "rz"]), [rng.randrange(L)], round(rng.uniform(0.1, 3.0), 3)])
+    return spec
+
+
+def gen_schmidt(rng, tier):
+    n_cut = {"quick": 60, "thorough": 400, "search": 120}.get(tier, 60)
+    n_run = {"quick": 4, "thorough": 24, "search": 8}.get(tier, 4)
+    fams = ["random"] * 5 + ["tiny"] * 3 + ["ghz", "padded"]
+    for n in range(n_cut):
+        fam = fams[n % len(fams)]
+        d = 3 if (fam in ("random", "tiny", "ghz") and rng.random() < 0.3) else 2
+        L = rng.choice([3, 4, 5]) if d == 3 else rng.choice([3, 4, 5, 6, 7])
+        if fam == "tiny" and d == 2:
+            L = rng.choice([3, 4, 5, 6])
+        inp = {"kind": "schmidt-cut", "family": fam, "L": L, "d": d, "cap": rng.choice([2, 3, 4, 8]), "sub": rng.randrange(1 << 30)}
+        if fam == "padded":
+            inp["pstate"] = rng.choice(["zeros", "x+", "y+", "Neel"])
+            inp["cap"] = rng.choice([2, 4])
+        elif rng.random() < 0.3:      # every bond of these families has dimension > 1 (the bond-1 shortcut returns 1.0 whatever the norm)
+            r, ph = rng.uniform(0.3, 3.0), rng.uniform(0, 6.28)
+            inp["scale"] = [r * np.cos(ph), r * np.sin(ph)]
+        yield inp
+    for _ in range(n_run):
+        L = rng.choice([3, 4, 5, 6])
+        yield {"kind": "run-entropy", "mode": "strong", "L": L, "circuit": entangling_circuit(rng, L), "sub": rng.randrange(1 << 30)}
+        L = rng.choice([3, 4, 5])
+        yield {"kind": "run-entropy", "mode": "analog", "order": rng.choice([1, 2]), "L": L, "d": 2, "family": "random", "cap": 4,
+               "sub": rng.randrange(1 << 30)}
+
+
 # ------------------------------------------------------------------------------------------------ generation
 def random_circuit(rng, L):
     spec = []
@@ -614,6 +1019,7 @@ def gen(rng, tier):
     n_run = {"quick": 5, "thorough": 30, "search": 10}.get(tier, 5)
     n_st = {"quick": 14, "thorough": 60, "search": 12}.get(tier, 8)
     yield {"kind": "d29"}
+    yield from gen_schmidt(rng, tier)          # extension: Schmidt data of a cut
     for _ in range(n_eval):
         L = rng.choice([2, 3, 4, 5])
         pvm = rng.random() < 0.08
@@ -640,7 +1046,7 @@ def gen(rng, tier):
 def run(inp):
     k = inp["kind"]
     res = {"evalobs": run_evalobs, "walkraw": run_walkraw, "values": run_values, "run-strong": run_strong, "run-analog": run_analog,
-           "stitch": run_stitch, "d29": run_d29}[k](inp)
+           "stitch": run_stitch, "d29": run_d29, "schmidt-cut": run_schmidt_cut, "run-entropy": run_entropy_run}[k](inp)
     res = res if isinstance(res, list) else [res]
     for r in res:
         if inp.get("corpus_file"):
@@ -652,14 +1058,21 @@ def run(inp):
 
 
 if __name__ == "__main__":
-    ib.main("C11", gen, run, driver="Attribution",
+    ib.main("C11", gen, run, driver="Attribution", spec=schmidt_spec,
             rule="random entangled MPS in the simulator's form (L <= 5, bond <= 4) x random mixtures and permutations of observables "
                  "(library one-/two-site gates, random Hermitian complex matrices, entropy, Schmidt spectrum, runtime_cost, max_bond, "
                  "total_bond, pvm lists); hand-made unsorted lists for the raw walk; sentinel-backend runs of the real simulator.run "
                  "(strong, analog order 1/2) x trajectories 1..5; real strong / analog runs. distinct = distinct (kind, list) signatures; "
-                 "non-trivial = more than one observable / order changed by the sort",
+                 "non-trivial = more than one observable / order changed by the sort. "
+                 "Extension (Schmidt data): states L = 3..7 (qubits) / 3..5 (qutrits), bond <= 8, families random complex, prescribed "
+                 "Schmidt coefficients down to 1e-13 / 1e-150 / exact 0 on one cut, asymmetric GHZ-like, zero-padded product states, "
+                 "30 % scaled by a complex factor; every cut (i, i+1) through evaluate_observables with shuffled entropy + "
+                 "schmidt_spectrum (+ local) observables; entropy on every cut through simulator.run (strong, analog order 1/2)",
             trusted_base=["numpy / qiskit dense state vectors in the oracles; LAPACK SVD for the dense Schmidt spectrum",
-                          "QR centre shift moves the orthogonality centre one site to the right without changing the state (C10)"],
+                          "QR centre shift moves the orthogonality centre one site to the right without changing the state (C10)",
+                          "LAPACK SVD of the two-site matrix (U diag(s) V = M, isometries, s real >= 0 descending): hypothesis of "
+                          "`schmidt_values`, spec-tied on every matrix seen; C `log` of Lean's Float vs numpy's log (1e-9 relative)",
+                          "power traces determine the non-zero spectrum (Newton's identities): cited"],
             assumptions=["an observable object is identified by id(); the model's id is the position in the user's list",
                          "entropy / Schmidt sites are given ascending (sites[0] = min(sites)), as the Observable docs ask",
                          "numeric identity of the site-local contraction with the dense expectation value is decided by the oracle; the "
